@@ -671,6 +671,113 @@ fn stream_pv() {
     out.flush();
 }
 
+/// The same lookups through a live versioned server (`http_request_handle`:
+/// header policy -> resolved version -> router -> handler -> response).
+fn stream_sv(profile: &str) {
+    let mut out = Out::new();
+    let mut rng = Rng::from_env(if profile == "c04" { 14 } else { 11 });
+    let mut id = 0u64;
+    let (versioned_pct, same_path_pct) = if profile == "c04" { (75, 55) } else { (55, 30) };
+    let n_tables = if is_thorough() { 1500 } else { 150 };
+    let rt = tokio::runtime::Builder::new_multi_thread().worker_threads(4).enable_all().build().unwrap();
+    for _ in 0..n_tables {
+        let size = rng.range(1, 8) as usize;
+        let eps = gen_accepted_table(&mut rng, size, versioned_pct, same_path_pct);
+        // every request carries a version (the policy refuses requests without one)
+        let reqs: Vec<(String, String, Option<Version>)> = gen_requests(&mut rng, &eps, 16)
+            .into_iter()
+            .map(|(m, p, v)| {
+                let v = v.unwrap_or_else(|| Version::parse(rng.pick_s(PROBES)).unwrap());
+                // a lower-case method token on the wire is an extension method; keep it
+                (m, p, Some(v))
+            })
+            .collect();
+        let Some(results) = rt.block_on(live_lookups(&eps, &reqs, "3.5.0")) else { continue };
+        let table = enc_table(&eps);
+        for ((m, p, v), r) in reqs.iter().zip(results.iter()) {
+            id += 1;
+            out.line(&format!("lk {} {} {} {} {} => {}", id, table, m, hex(p.as_bytes()), v.as_ref().unwrap(), r));
+        }
+    }
+    out.flush();
+}
+
+/// Header version policy on a live server: `hd` lines for the C05 driver.
+/// A 200 is reported as `ok:<the version the header spells>` only if the
+/// handler that ran is the one whose bracket contains that version.
+fn stream_hv() {
+    use dsharness::server::*;
+    let mut out = Out::new();
+    let mut rng = Rng::from_env(15);
+    let mut id = 0u64;
+    let rt = tokio::runtime::Builder::new_multi_thread().worker_threads(4).enable_all().build().unwrap();
+    let eps = vec![
+        Ep { id: 0, method: "GET".into(), path: "/v".into(), range: Rg::Until("1.0.0".into()), visible: true },
+        Ep { id: 1, method: "GET".into(), path: "/v".into(), range: Rg::FromUntil("1.0.0".into(), "2.0.0".into()), visible: true },
+        Ep { id: 2, method: "GET".into(), path: "/v".into(), range: Rg::From("2.0.0".into()), visible: true },
+    ];
+    let n = if is_thorough() { 6000 } else { 600 };
+    for max in ["2.5.0", "1.0.0", "1.0.0-rc.1"] {
+        let mut api = dropshot::ApiDescription::<()>::new();
+        for e in &eps {
+            api.register(live_endpoint(e).unwrap()).unwrap();
+        }
+        let policy = dropshot::VersionPolicy::Dynamic(Box::new(dropshot::ClientSpecifiesVersionInHeader::new(
+            http::HeaderName::from_static("api-version"),
+            Version::parse(max).unwrap(),
+        )));
+        let server = rt.block_on(async { start_server(api, (), ServerOpts { version_policy: Some(policy), ..Default::default() }) });
+        let addr = server.local_addr();
+        let mut cases: Vec<Option<Vec<u8>>> = vec![None];
+        for v in ["0.5.0", "1.0.0", "1.5.0", "2.0.0", "2.5.0", "2.5.1", "3.0.0", "1.0.0-rc.1", "1.0.0-rc.2", "2.0.0-alpha",
+                  "1.0.0+b", "2.5.0+b", "", "1.0", "01.0.0", "v1.0.0", "1.0.0,1.0.0", "latest", "1.0.0 ", "\t1.0.0"] {
+            cases.push(Some(v.replace("\\t", "\t").into_bytes()));
+        }
+        cases.push(Some(vec![b'1', b'.', b'0', b'.', b'0', 0xe9]));
+        for _ in 0..n / 3 {
+            let mut v = format!("{}.{}.{}", rng.below(4), rng.below(3), rng.below(3));
+            if rng.chance(1, 4) {
+                v.push_str(rng.pick_s(&["-rc.1", "-0", "+x", "-", "+", ".0", " "]));
+            }
+            cases.push(Some(v.into_bytes()));
+        }
+        for c in cases {
+            let mut req = b"GET /v HTTP/1.1\r\nhost: localhost\r\n".to_vec();
+            if let Some(v) = &c {
+                req.extend_from_slice(b"api-version: ");
+                req.extend_from_slice(v);
+                req.extend_from_slice(b"\r\n");
+            }
+            req.extend_from_slice(b"\r\n");
+            let Some(resp) = roundtrip(addr, &req, false) else { continue };
+            // hyper trims optional whitespace around a header value before dropshot sees it
+            let seen: Option<Vec<u8>> = c.as_ref().map(|v| {
+                let s: &[u8] = v;
+                let start = s.iter().position(|b| *b != b' ' && *b != b'\t').unwrap_or(s.len());
+                let end = s.iter().rposition(|b| *b != b' ' && *b != b'\t').map(|i| i + 1).unwrap_or(start);
+                s[start..end].to_vec()
+            });
+            let got = if resp.status == 200 {
+                let body = String::from_utf8_lossy(&resp.body).to_string();
+                let parsed = seen.as_ref().and_then(|v| std::str::from_utf8(v).ok().map(|s| s.to_string())).and_then(|s| Version::parse(&s).ok());
+                match parsed {
+                    Some(v) => {
+                        let bracket = if v < Version::parse("1.0.0").unwrap() { "0" } else if v < Version::parse("2.0.0").unwrap() { "1" } else { "2" };
+                        if body.starts_with(&format!("ok:{}:", bracket)) { format!("ok:{}", v) } else { format!("ok:wrong-handler:{}", body) }
+                    }
+                    None => "ok:unparsable-but-served".to_string(),
+                }
+            } else {
+                format!("err:{}", resp.status)
+            };
+            id += 1;
+            out.line(&format!("hd {} {} {} => {}", id, match &seen { None => "none".to_string(), Some(v) => hex(v) }, max, got));
+        }
+        rt.block_on(async { server.close().await.unwrap() });
+    }
+    out.flush();
+}
+
 fn main() {
     quiet_panics();
     let args: Vec<String> = std::env::args().collect();
@@ -680,6 +787,8 @@ fn main() {
         Some("rc") => stream_rc(),
         Some("doc") => stream_doc(),
         Some("pv") => stream_pv(),
+        Some("hv") => stream_hv(),
+        Some("sv") => stream_sv(args.get(2).map(|s| s.as_str()).unwrap_or("c01")),
         _ => {
             eprintln!("usage: router lk [c01|c04] | reg | rc | doc");
             std::process::exit(2);
